@@ -9,7 +9,8 @@
 From stdpp Require Import gmap numbers sorting list.
 From Coq Require Import ZArith.
 Require Import Model.Bytes Model.Bank Model.Valset Model.ValsetOrder Model.L1 Model.L2.
-Require Import Proofs.C18Proofs.
+Require Import Model.Genesis1 Model.Genesis2.
+Require Import Proofs.C18Proofs Proofs.C18GenesisProofs.
 
 (* Sorting a key-distinct list by key gives the same list for every permutation of the input. *)
 Theorem C18_sort_permutation_invariant : ∀ (A : Type) (l1 l2 : list (N * A)),
@@ -46,6 +47,16 @@ Proof. exact l2_run_functional. Qed.
 Theorem C18_step_functional_endblock : ∀ s r1 r2, end_block_updates s = r1 → end_block_updates s = r2 → r1 = r2.
 Proof. exact end_block_functional. Qed.
 
+(* Import of an exported L2 genesis (Model/Genesis2.v, the model of InitGenesis validated by the
+   C16 stream): the validator updates handed to the consensus engine are, entry by entry and in the
+   order of the document's last_validator_powers list, the consensus key of that entry's validator
+   with the recorded power - a function of the document alone, no enumeration order enters.
+   (C16's round-trip theorem shows the hypothesis is met by every exported reachable state.) *)
+Theorem C18_genesis_updates_order : ∀ c base g s ups,
+  import2 c base g = Some (s, ups) → h_exported g = true →
+  mapM (update_of (foldl import_val vempty (h_vals g))) (h_last g) = Some ups.
+Proof. exact import2_updates_in_file_order. Qed.
+
 Print Assumptions C18_sort_permutation_invariant.
 Print Assumptions C18_valset_order_independent.
 Print Assumptions C18_valset_two_runs_agree.
@@ -53,3 +64,4 @@ Print Assumptions C18_unsorted_order_dependent.
 Print Assumptions C18_step_functional_l1.
 Print Assumptions C18_step_functional_l2.
 Print Assumptions C18_step_functional_endblock.
+Print Assumptions C18_genesis_updates_order.
